@@ -44,7 +44,9 @@ pub fn load_corpus(dir: &str) -> Corpus {
         }
     }
     let mut bits = std::collections::HashMap::new();
-    if let Ok(s) = std::fs::read_to_string(format!("{dir}/jitcov.tsv")) {
+    let cov = format!("{}{}", std::fs::read_to_string(format!("{dir}/jitcov.tsv")).unwrap_or_default(), std::fs::read_to_string(format!("{dir}/bccov.tsv")).unwrap_or_default());
+    if !cov.is_empty() {
+        let s = cov;
         for l in s.lines() {
             let p: Vec<&str> = l.split('\t').collect();
             if p.len() == 2 && spec::check_brackets(p[1]).is_ok() {
@@ -1538,9 +1540,9 @@ pub fn c12(args: &Args) -> i32 {
 
 // ---- coverage-guided search for JIT selector cases (generator 6 of the design) ------------------
 
-fn jit_keys(code: &str, bits: u32, level: u32) -> Option<Vec<String>> {
-    let v = std::panic::catch_unwind(|| c11_translate(code, bits, level, 11, false)).ok()??;
-    let mut keys: Vec<String> = (0..v.insts.len()).map(|i| crate::bcref::selector_key(&v, i)).collect();
+fn jit_keys(code: &str, bits: u32, level: u32, bc: bool) -> Option<Vec<String>> {
+    let v = std::panic::catch_unwind(|| if bc { c11_translate(code, bits, level, 2, true) } else { c11_translate(code, bits, level, 11, false) }).ok()??;
+    let mut keys: Vec<String> = (0..v.insts.len()).map(|i| if bc { crate::bcref::bcint_key(&v, i) } else { crate::bcref::selector_key(&v, i) }).collect();
     keys.sort();
     keys.dedup();
     Some(keys)
@@ -1650,7 +1652,7 @@ pub fn hunt(args: &Args) -> i32 {
         tried += 1;
         let bits = *rng.pick(&[8u32, 16, 32, 64, 64]);
         let level = *rng.pick(&[1u32, 2, 3]);
-        if let Some(keys) = jit_keys(&code, bits, level) {
+        if let Some(keys) = jit_keys(&code, bits, level, args.get("target") == Some("bc")) {
             let mut novel = false;
             for k in keys {
                 match seen.get(&k) {
